@@ -1,7 +1,7 @@
 //! C08 — compiled linear models are well-formed; no guessed or non-finite constants; missing-bounds contract.
 use crate::core::{Local, Run};
 use crate::linsem::*;
-use crate::props::c01::{Case, drop_unreferenced, family_a, family_a_size, family_b, family_b_trees, family_c, family_c_size};
+use crate::props::c01::{Case, drop_unreferenced, family_a, family_a_size, family_b, family_b_trees, family_c, family_c_size, family_d, family_d_size};
 use indexmap::IndexMap;
 use rooc::model_transformer::Exp;
 use rooc::{LinearModel, LinearizationError, Linearizer, RoocParser};
@@ -282,7 +282,7 @@ pub fn run(mut run: Run) -> ! {
     crate::core::silence_panics();
     let quick = run.quick();
     let depth = if quick { 2 } else { 3 };
-    run.rule = format!("every linear model compiled from the C01 families (A: cores x context chains depth {depth} x relations x constants x declaration forms; B: logic trees x comparison forms; C: bound feeders x consumers) is checked against the structural invariants (sorted duplicate-free variables = domain keys, every source variable present, one coefficient per variable in every row and the objective, finite numbers, unique row names, $-prefixed auxiliaries, no constant above 1e7), every missing-bounds rejection against its contract (non-empty list, exactly the unbounded variables of the offending expression per the hooked bounds analysis), plus 22 adversarial texts (duplicate and colliding row names, user variables named like auxiliaries, unused declarations, vanishing coefficients, infinite constants, infinite bounds under exact lowerings, empty aggregations); distinct = model text");
+    run.rule = format!("every linear model compiled from the C01 families (A: cores x context chains depth {depth} x relations x constants x declaration forms; B: logic trees x comparison forms; C: bound feeders x consumers; D: blocks over three variables with different ranges in every context) is checked against the structural invariants (sorted duplicate-free variables = domain keys, every source variable present, one coefficient per variable in every row and the objective, finite numbers, unique row names, $-prefixed auxiliaries, no constant above 1e7), every missing-bounds rejection against its contract (non-empty list, exactly the unbounded variables of the offending expression per the hooked bounds analysis), plus 22 adversarial texts (duplicate and colliding row names, user variables named like auxiliaries, unused declarations, vanishing coefficients, infinite constants, infinite bounds under exact lowerings, empty aggregations); distinct = model text");
     run.assume("derived bounds read through the verif_hooks view of the bounds analysis on the normalised constraints, as the linearizer computes them");
     let sa = family_a_size(depth, false);
     run.family("A-core-in-context", sa, move |i, l| check_case(&family_a(i, depth, false), l));
@@ -290,6 +290,7 @@ pub fn run(mut run: Run) -> ! {
     let t2 = trees.clone();
     run.family("B-logic-assertions", trees.len() as u64 * 31, move |i, l| check_case(&family_b(&t2, i), l));
     run.family("C-bound-feeders", family_c_size(), |i, l| check_case(&family_c(i), l));
+    run.family("D-several-continuous-variables", family_d_size(1), |i, l| check_case(&family_d(i, 1), l));
     run.family("T-adversarial-texts", TEXTS.len() as u64, check_text);
     for k in ["compiled", "rejected:MissingFiniteBounds", "missing-bounds-contracts-checked", "text:compiled", "text:rejected-by-linearizer"] {
         run.require(k);
